@@ -869,6 +869,15 @@ for _d in range(0, 7):
       mutant=dict(file=DT, old="    let bits_per_coord = (128_u32 / d_u32).min(31);", new="    let bits_per_coord = (128_u32 / d_u32).max(31);",
                   desc="Hilbert bit depth chosen with max instead of min (index would overflow)") if _d == 5 else None)
 
+K("dt.check_after_insertion", ["C02"], DT, "dt_check.rs", "check_after_insertion_contract", "K-callee",
+  [fn(DT, "maybe_check_after_insertion")], timeout=1200,
+  assumed=["Tds::number_of_cells (stub): 0 or any positive count; DelaunayTriangulation::is_valid (stub): any verdict; Display of the validation error stubbed (message text not modelled)"],
+  bounded="insertion count <= 1024, EveryN n <= 16",
+  obligations=["check-only-when-due", "check-verdict-decides", "no-check-ok"],
+  claim="maybe_check_after_insertion: the Delaunay level is evaluated only when the check policy is due (and cells exist), and then its verdict decides the insertion - 'when the per-insertion Delaunay check is enabled a reported insertion leaves the Delaunay level certified'",
+  mutant=dict(file=DT, old="        self.is_valid()\n            .map_err(|e| InsertionError::DelaunayValidationFailed {\n                message: e.to_string(),\n            })",
+              new="        let _ = self.is_valid();\n        Ok(())", desc="the per-insertion Delaunay check's verdict is ignored"))
+
 # ======================================================================================
 # Units that are written and attached on demand (`--unit ID`) but NOT part of any registered
 # command: they do not finish within 45 min here (or were never seen to finish).
@@ -878,7 +887,7 @@ _MANUAL = {"construct.retry_gate", "tri.fan_tail", "tri.validation_report", "dt.
            "tds.remove_cells_bump.k0", "tds.remove_cells_bump.k1", "tds.remove_cells_bump.k2",
            "tri.adjacent_cells.n2_nohint", "tri.adjacent_cells.n2_hint", "tri.adjacent_cells.n0_absent",
            "hull.stale.is_point_outside", "hull.stale.find_visible", "hull.stale.find_nearest", "hull.stale.facet_visible",
-           "hull.stale_fast.is_point_outside", "hull.stale_fast.find_nearest", "builder.canonicalize_vertices"}
+           "hull.stale_fast.is_point_outside", "hull.stale_fast.find_nearest", "builder.canonicalize_vertices", "dt.check_after_insertion"}
 for _u in UNITS:
     if _u["id"] in _MANUAL:
         _u["tier"] = "manual"
